@@ -56,7 +56,7 @@ PROPS = {
     "C10": {"lean": ["C10"], "expected": ["Reader", "Globals"], "streams": [{"name": "udpbuf", "gen": "frame", "args": {"focus": "udpbuf"}}, {"name": "pool", "gen": "pool"}, {"name": "udpwire", "gen": "frame", "args": {"focus": "udpwire"}}, {"name": "pipe", "gen": "pipe", "args": {"focus": "responses"}}, {"name": "wire", "gen": "wire", "args": {"focus": "c10"}}],
             "also": ["C02"],
             "rule": "every datagram parsed through the real UDP parse loop in a clean and in a dirty 64 KiB buffer (cut / over- / under-declared datagrams), plus exhaustive and random Alloc/Free histories on the real pool; non-trivial = datagram accepted; distinct by op line"},
-    "C08": {"lean": ["C08"], "expected": ["Inventory", "Globals"], "also": ["C10"], "streams": [{"name": "hostile", "gen": "hostile"}, {"name": "udpwire", "gen": "frame", "args": {"focus": "udpwire"}}, {"name": "wire", "gen": "wire", "args": {"focus": "c08"}}],
+    "C08": {"lean": ["C08"], "expected": ["Inventory", "Reader", "Globals"], "also": ["C10"], "streams": [{"name": "hostile", "gen": "hostile"}, {"name": "udpwire", "gen": "frame", "args": {"focus": "udpwire"}}, {"name": "wire", "gen": "wire", "args": {"focus": "c08"}}],
             "rule": "mutations of valid requests/responses and hostile field values (absurd Content-Length, bracket-only hosts, thousands of headers/parameters, truncations, garbage): accept/reject compared with the model, robustness oracle (no panic, bounded allocation) on parse and on the whole pipeline, liveness probes after hostile input; non-trivial = input accepted by the parser; distinct by op line"},
     "C09": {"lean": ["C09"], "expected": ["Wiring", "Locks", "Globals"], "also": ["C10", "C11"], "streams": [{"name": "race", "gen": "race", "race": True, "timeout": 900}, {"name": "udpwire", "gen": "frame", "args": {"focus": "udpwire"}}, {"name": "frame", "gen": "frame", "args": {"focus": "frame"}}],
             "rule": "stress runs of several real Proxy loops of one service fed concurrently with membership changes, pool, transport table and resolver traffic under the Go race detector, GOMAXPROCS varied; every request must reach exactly one backend; non-trivial = run under load (>= 100 requests); distinct by (listeners, seed, GOMAXPROCS)"},
